@@ -5,21 +5,23 @@ E1, bounded-exhaustive: applications on DefaultApplicationConfig with three comm
 every switch observable, and every line obtained from a base line by inserting an ordered
 selection of <= K distinct switch spellings (13 spellings of the seven global switches) at every
 combination of token boundaries, including the boundaries behind '--'.  Every line is executed on
-the real ConsoleApplication.run with non-tty buffered streams and judged by a reference computed
-from the SET of switches standing before '--'.
+the real ConsoleApplication.run with buffered streams handed to run() (pipe-like: supports_ansi()
+False; for lines carrying an ANSI switch also terminal-like: supports_ansi() True) and judged by a
+reference computed from the SET of switches standing before '--'.
 
 What is demanded / deliberately not demanded (statement in properties.jsonl is authoritative):
   * quiet (anywhere before '--', whatever gets resolved)  => both streams stay empty, also when the
-    handler raises, also together with help/version ("all output of the run").
+    handler raises (full trace and one-line report), also together with help/version ("all output").
   * -v/-vv/-vvv => io.verbosity seen by the handler and the marker lines on BOTH streams correspond to
     the highest level given.  Together with quiet the level seen by the handler is NOT asserted
     (statement silent on whether quiet resets verbosity); the streams are empty anyway.
-  * --no-ansi without --ansi => no ESC byte on either stream (also inside the error report).
+  * --no-ansi without --ansi => no ESC byte on either stream (also inside the error report); this is only
+    a real demand on the terminal-like streams, which decorate by default (measured on the switch-free line).
     --ansi without --no-ansi => every marker (and the question prompt) is wrapped in SGR sequences on both
-    non-tty streams; help page == the help page rendered on a forced-ANSI IO built directly.
+    streams, pipe-like ones included; help page == the help page rendered on a forced-ANSI IO built by hand.
     --ansi together with --no-ansi: contradictory demands, which one wins is NOT asserted (the text with
-    SGR stripped still is).  Neither: the streams are not ttys, output must be plain (this is the baseline
-    the '--' clause refers to).
+    SGR stripped still is).  Neither: the output must look like the switch-free baseline of that kind of
+    stream (plain on pipe-like streams) - this is what the '--' clause refers to.
   * -n/--no-interaction => handler sees is_interactive() False, Question.ask returned its default, the
     input stream position did not move.  Without it (and without quiet) the typed answer is returned.
     With quiet but without -n nothing about the dialogue is asserted (silent).
@@ -34,7 +36,8 @@ What is demanded / deliberately not demanded (statement in properties.jsonl is a
     value and swallows the token (stated limitation, DESIGN.md section 4).
   * tokens behind '--' have no effect: the same reference with those tokens left out of the set, and
     they must arrive as values of the multi-valued argument in order.
-  * status of a raising handler and the wording of its error report are not asserted (C04/C20).
+  * status of a raising handler and the wording / stream of its error report are not asserted (C04/C20).
+  * '--verbose' (long form) is not one of the statement's switches ('-v', '-vv', '-vvv' are) and is not used.
 Every run uses a freshly built application: state carried from run to run belongs to C05/C17.
 """
 import io
@@ -72,12 +75,13 @@ LINES = [
     (["tail", "--", "a"], 1),
     (["tail", "a", "--", "b"], 1),
 ]
-# VERIF_SEED rotates exactly one of these in, on top of the fixed core above
+# VERIF_SEED rotates exactly one of these in, on top of the fixed core above (only `tail` lines may carry a
+# '--': tokens behind it need the multi-valued argument to land in)
 EXTRA_LINES = [
     (["tail", "a", "b"], 1),
     (["tail", "a", "--"], 1),
     (["tail", "--", "a", "b"], 1),
-    (["pkg", "add", "--"], 2),
+    (["tail", "a", "b", "--"], 1),
 ]
 VARIANTS = ["ok", "raise", "raise-cli"]
 # one spelling per switch and per verbosity level
@@ -145,8 +149,25 @@ def build_app(raises):
     return ConsoleApplication(config)
 
 
-def execute(tokens, variant, string_args=False):
-    """One run of a fresh application -> observation dict.  Streams are buffers (never ttys)."""
+_TTY = []
+
+
+def tty_like_stream():
+    """A buffer that claims ANSI support, as a terminal would (no real tty is ever touched)."""
+    if not _TTY:
+        from clikit.io.output_stream import BufferedOutputStream
+
+        class TtyLikeStream(BufferedOutputStream):
+            def supports_ansi(self):
+                return True
+
+        _TTY.append(TtyLikeStream)
+    return _TTY[0]()
+
+
+def execute(tokens, variant, string_args=False, tty=False):
+    """One run of a fresh application -> observation dict.  Streams are buffers: plain ones (supports_ansi()
+    False, like a pipe) or, with tty=True, buffers that claim ANSI support like a terminal."""
     from clikit.args.argv_args import ArgvArgs
     from clikit.args.string_args import StringArgs
     from clikit.io.input_stream.stream_input_stream import StreamInputStream
@@ -155,7 +176,8 @@ def execute(tokens, variant, string_args=False):
     del RECORDS[:]
     app = build_app(variant if variant in VARIANTS[1:] else None)
     raw = io.BytesIO((TYPED + "\n").encode())
-    i, o, e = StreamInputStream(raw), BufferedOutputStream(), BufferedOutputStream()
+    i = StreamInputStream(raw)
+    o, e = (tty_like_stream(), tty_like_stream()) if tty else (BufferedOutputStream(), BufferedOutputStream())
     args = StringArgs(" ".join(tokens)) if string_args else ArgvArgs([NAME] + list(tokens))
     status = app.run(args, i, o, e)
     return {"status": status, "out": o.fetch(), "err": e.fetch(), "recs": [dict(r) for r in RECORDS],
@@ -163,6 +185,15 @@ def execute(tokens, variant, string_args=False):
 
 
 _REF = {}
+
+
+def tty_default():
+    """What the baseline does on terminal-like streams when no ANSI switch is given (measured, not assumed):
+    True when markers come out SGR-wrapped on both streams."""
+    if "tty" not in _REF:
+        o = execute(["solo"], "ok", tty=True)
+        _REF["tty"] = bool(re.fullmatch(S1 + "oN" + S1 + "\n", o["out"])) and o["err"].startswith("\x1b")
+    return _REF["tty"]
 
 
 def ref_pages(path):
@@ -231,7 +262,7 @@ def level_of(S):
     return max([VERB[s] for s in S if s in VERB] or [0])
 
 
-def judge(info, variant, obs, count):
+def judge(info, variant, obs, count, tty=False):
     """Reference model.  -> list of (sig, what, expected, observed).  `count(effect)` tallies the
     effects whose assertion was actually evaluated on this run."""
     S = set(info["S"])
@@ -242,26 +273,35 @@ def judge(info, variant, obs, count):
     wants_help = bool(S & set(HELP))
     wants_version = bool(S & set(VERSION))
     lvl = level_of(S)
-    ctx = "plain" if not S and not info["T"] else ("dashdash" if not S else ("switch" if not info["T"] else "mixed"))
+    # decoration demanded: True / False / None = not asserted (both ANSI switches given)
+    if ansi and noansi:
+        decor = None
+    elif ansi or noansi:
+        decor = ansi
+    else:
+        decor = tty and tty_default()  # no switch: the baseline of that kind of stream
+    sfx = "_tty" if tty else ""
+    # signature suffix: the switch-free baseline and "a token behind '--' had an effect" are failures of their own
+    ctx = ":baseline" if not S and not info["T"] else (":behind--" if not S else "")
     out, err, recs = obs["out"], obs["err"], obs["recs"]
     bad = []
 
     def v(pred, what, expected=None, observed=None):
-        bad.append(("%s:%s" % (pred, ctx), what, expected, observed))
+        bad.append((pred + ctx, what, expected, observed))
 
     if info["T"]:
         count("switch_behind_dashdash")
 
     # ---- stream-level effects: hold wherever the switch stands before '--' ----------------
-    cls = "prepath" if info["prepath"] else ("help" if wants_help else ("version" if wants_version else variant))
+    cls = "prepath" if info["prepath"] else ("help" if wants_help else ("version" if wants_version else variant.split("-")[0]))
     if quiet:
-        count("quiet_" + cls)
+        count("quiet_" + (cls if cls != "raise" else variant))
         if out != "":
             v("quiet:stdout:%s" % cls, "quiet switch given but standard output is not empty", "", out[:200])
         if err != "":
             v("quiet:stderr:%s" % cls, "quiet switch given but error output is not empty", "", err[:200])
     if noansi and not ansi:
-        count("noansi_" + cls)
+        count("noansi_" + (cls if cls != "raise" else variant) + sfx)
         if "\x1b" in out:
             v("noansi:stdout:%s" % cls, "--no-ansi given but an escape sequence reached standard output", "no ESC", out[:200])
         if "\x1b" in err:
@@ -292,14 +332,16 @@ def judge(info, variant, obs, count):
         if wants_help and wants_version and not (is_help or is_version):
             v("help+version:page", "help and version switches: neither the help page nor name and version were printed",
               None, [out[:300], err[:200]])
-        if ansi and not noansi:
-            count("ansi_" + which)
+        if decor:
+            why = "--ansi" if ansi else "terminal-like streams, no ANSI switch"
+            count(("ansi_" if ansi else "ttydefault_") + which + sfx)
             if is_help and not is_version and (out != ref["help_ansi_out"] or err != ref["help_ansi_err"]):
-                v("ansi:help-page", "--ansi with the help switch: page is not the decorated help page",
+                v("%s:help-page" % ("ansi" if ansi else "ttydefault"), "%s with the help switch: page is not the decorated help page" % why,
                   ref["help_ansi_out"][:200], out[:200])
             if is_version and not is_help and "\x1b" not in out:
-                v("ansi:version-page", "--ansi with the version switch: the styled version is not decorated", "ESC", out)
-        elif not ansi and ("\x1b" in out or "\x1b" in err):
+                v("%s:version-page" % ("ansi" if ansi else "ttydefault"), "%s with the version switch: the styled version is not decorated" % why,
+                  "ESC", out)
+        elif decor is False and not noansi and ("\x1b" in out or "\x1b" in err):
             v("ansi:unrequested:%s" % which, "no ANSI switch, non-tty streams, but the page is decorated", "no ESC", out[:200])
         return bad
 
@@ -335,7 +377,9 @@ def judge(info, variant, obs, count):
     elif not quiet:
         if rec.get("answer") != TYPED:
             v("interaction:answer", "no no-interaction switch before '--': the typed answer must be returned", TYPED, rec.get("answer"))
-    if quiet:
+    if quiet or bad:
+        # what the streams show follows from the flags the handler saw: when those are already wrong the stream
+        # comparisons below would only repeat the same failure under other names
         return bad
 
     shown = [n for n, l in LEVELS if l <= lvl]
@@ -355,15 +399,19 @@ def judge(info, variant, obs, count):
         extra = re.findall(r"(?m)^\s*[oe](?:N|V|VV|D)\s*$", rest)
         if sout.startswith(want_out) and serr.startswith(want_err) and extra:
             v("verbosity:markers:extra:%d" % lvl, "marker lines beyond level %d were printed" % lvl, [], extra)
-    if ansi and not noansi:
-        count("ansi_wrapped")
+    if bad:
+        return bad  # decoration is judged on streams whose text is right
+    if decor:
+        pred = "ansi" if ansi else "ttydefault"
+        why = "--ansi" if ansi else "terminal-like streams and no ANSI switch before '--'"
+        count(("ansi_wrapped" if ansi else "ttydefault_wrapped") + sfx)
         rx_out = "".join(S1 + "o%s" % n + S1 + "\n" for n in shown)
         rx_err = "".join(S1 + "e%s" % n + S1 + "\n" for n in shown) + ((S1 + r"Q\?" + S1 + " ") if prompt else "")
-        if not re.match(rx_out, out) or (variant == "ok" and not re.match("(?:%s)$" % rx_out, out)):
-            v("ansi:stdout", "--ansi: markers on standard output are not SGR-wrapped", "ESC[..m<marker>ESC[..m", out[:200])
-        if not re.match(rx_err, err) or (variant == "ok" and not re.match("(?:%s)$" % rx_err, err)):
-            v("ansi:stderr", "--ansi: markers on error output are not SGR-wrapped", "ESC[..m<marker>ESC[..m", err[:200])
-    elif not ansi and not noansi:
+        if not re.match(rx_out, out) or (variant == "ok" and not re.fullmatch(rx_out, out)):
+            v("%s:stdout" % pred, "%s: markers on standard output are not SGR-wrapped" % why, "ESC[..m<marker>ESC[..m", out[:200])
+        if not re.match(rx_err, err) or (variant == "ok" and not re.fullmatch(rx_err, err)):
+            v("%s:stderr" % pred, "%s: markers on error output are not SGR-wrapped" % why, "ESC[..m<marker>ESC[..m", err[:200])
+    elif decor is False and not noansi:
         if "\x1b" in out or "\x1b" in err:
             v("ansi:unrequested", "no ANSI switch before '--' and non-tty streams, but the output is decorated", "no ESC",
               [out[:200], err[:200]])
@@ -379,10 +427,10 @@ def run_case(case, count=None):
         return None, info
     case = dict(case, tokens=info["tokens"])
     try:
-        obs = execute(info["tokens"], case["variant"], case.get("string_args", False))
+        obs = execute(info["tokens"], case["variant"], case.get("string_args", False), case.get("tty", False))
     except Exception as e:
         return [report.viol("crash:" + report.exc_site(e), "run() let %r escape although exceptions are caught" % e, case)], info
-    return [report.viol(sig, what, case, exp, got) for sig, what, exp, got in judge(info, case["variant"], obs, count)], info
+    return [report.viol(sig, what, case, exp, got) for sig, what, exp, got in judge(info, case["variant"], obs, count, case.get("tty", False))], info
 
 
 def raw_args_agree(tokens):
@@ -441,8 +489,12 @@ def work(share):
     evals = 0
     for ui, unit, with_string in share:
         for ci, case in enumerate(unit_cases(unit)):
-            for sa in ((False, True) if with_string else (False,)):
-                c = dict(case, string_args=sa)
+            # (StringArgs?, terminal-like streams?): the terminal-like run only where an ANSI switch is on the line (or none at all)
+            modes = [(False, False)] + ([(True, False)] if with_string else [])
+            if not case["switches"] or set(case["switches"]) & set(ANSI + NOANSI):
+                modes.append((False, True))
+            for sa, tty in modes:
+                c = dict(case, string_args=sa, tty=tty)
                 local = {}
                 vs, info = run_case(c, lambda e: local.__setitem__(e, local.get(e, 0) + 1))
                 for e, n in local.items():
@@ -454,9 +506,9 @@ def work(share):
                     vs = vs + [report.viol("rawargs:argv-vs-string", "ArgvArgs and StringArgs disagree on tokens/option tokens", c)]
                 # non-trivial: at least one switch on the line and at least one switch-dependent assertion evaluated
                 if (info["S"] or info["T"]) and any(k != "prepath_stream_level_only" for k in local):
-                    keys.append(hash((" ".join(info["tokens"]), unit[2], sa)))
+                    keys.append(hash((" ".join(info["tokens"]), unit[2], sa, tty)))
                 for vi in vs:
-                    rank = (len(unit[3]), len(unit[0]), ui, ci, sa)
+                    rank = (len(unit[3]), len(unit[0]), ui, ci, sa, tty)
                     if vi["sig"] in viols:
                         if rank < viols[vi["sig"]][0]:
                             viols[vi["sig"]] = (rank, vi)
@@ -513,10 +565,12 @@ def main():
     rep.set("units", len(us))
     rep.set("base_lines", [" ".join(l) for l, _ in lines])
     rep.set("rotated_line", " ".join(lines[-1][0]))
+    rep.set("tty_default_decorated", tty_default())
     rep.set("exhaustive", True)
     rep.set("rule", "space A: base lines x handler {ok, raise, raise-cli} x every subset of <= %d of the 13 switch spellings x every order "
                     "x every non-decreasing placement over the token boundaries incl. behind '--' (= every interleaving exactly once), run "
-                    "through ArgvArgs, lines with <= 2 switches also through StringArgs; space B: the same with exactly %d of the 9 short "
+                    "through ArgvArgs on pipe-like buffers, lines with <= 2 switches also through StringArgs, lines with --ansi/--no-ansi anywhere (and the "
+                    "switch-free lines) also on terminal-like buffers (supports_ansi() True); space B: the same with exactly %d of the 9 short "
                     "spellings %s x handler {ok, raise}. Lines with '-v' directly before a positional are skipped (counted). "
                     "non-trivial = distinct (line, handler, args class) with >= 1 switch on which >= 1 switch-dependent assertion was "
                     "evaluated (a line with a switch before/inside the command path counts only when quiet or --no-ansi was asserted on it)"
@@ -524,7 +578,8 @@ def main():
     for u in us[:: max(1, len(us) // 7)][:8]:
         c = list(unit_cases(u))[-1]
         rep.sample(" ".join(compose(c["line"], c["switches"], c["positions"])) + " [%s]" % c["variant"])
-    rep.assume("streams handed to run() are buffers (supports_ansi() False): 'any stream' is exercised on non-ttys only")
+    rep.assume("streams handed to run() are buffers: supports_ansi() False (where --ansi has to force decoration) and, for lines with an ANSI "
+               "switch, also True (where --no-ansi has to remove it; the undecorated/decorated default is measured on the switch-free line)")
     rep.assume("a fresh application per run (state carried between runs is C05/C17); COLUMNS=80")
     rep.assume("'-v' directly before a positional is skipped; a switch before/inside the command path is judged for quiet and --no-ansi only")
     rep.assume("--ansi together with --no-ansi, and the verbosity/dialogue seen under quiet, are left unasserted (statement silent)")
